@@ -145,6 +145,8 @@ void h_rel(void) {
 #if REL_MODE == 3
     if (!(in.sel & 1)) (void)build_state(&g_cfgB, &in.st2);     /* ... or after this one */
     lltd_iface_state *sb = find_state(&g_cfgB);
+    /* the other interface may be holding arbitrarily many observations (counter only: stands for a long un-queried record) */
+    if (in.sel & 2) sb->see_list_count = sb->see_list_count + 5000u;
     struct snap snb0; snapshot_list(sb, &snb0);
     lltd_iface_state sb_before = *sb;
 #endif
@@ -233,14 +235,14 @@ void h_rel(void) {
     V_ASSERT(p1.nsleep == p2.nsleep, "C09: same pauses in both worlds");
 #endif
     /* equivalence of the post-records (lets single steps stand for arbitrary continuations) */
-    V_ASSERT(p1.known == p2.known, "C09: same mapper status afterwards");
-    if (p1.known) V_ASSERT(mac6_eq(p1.mreal, p2.mreal) && mac6_eq(p1.mapp, p2.mapp), "C09: same active mapper afterwards");
-    V_ASSERT(p1.seq == p2.seq && p1.gt == p2.gt && p1.gq == p2.gq, "C09: same sequence and generation numbers afterwards");
-    V_ASSERT(p1.icon == p2.icon && p1.icon_size == p2.icon_size, "C09: same icon cache status afterwards");
-    V_ASSERT(p1.count == p2.count && p1.sn.n == p2.sn.n, "C09: same number of observations afterwards");
+    V_ASSERT(p1.known == p2.known, "C09,C17: same mapper status afterwards");
+    if (p1.known) V_ASSERT(mac6_eq(p1.mreal, p2.mreal) && mac6_eq(p1.mapp, p2.mapp), "C09,C17: same active mapper afterwards");
+    V_ASSERT(p1.seq == p2.seq && p1.gt == p2.gt && p1.gq == p2.gq, "C09,C17: same sequence and generation numbers afterwards");
+    V_ASSERT(p1.icon == p2.icon && p1.icon_size == p2.icon_size, "C09,C17: same icon cache status afterwards");
+    V_ASSERT(p1.count == p2.count && p1.sn.n == p2.sn.n, "C09,C17: same number of observations afterwards");
     for (unsigned i = 0; i < KP; i++) {
         if (i < p1.sn.n) V_ASSERT(p1.sn.node[i].type == p2.sn.node[i].type && mac6_eq(p1.sn.node[i].rs, p2.sn.node[i].rs) && mac6_eq(p1.sn.node[i].es, p2.sn.node[i].es) && mac6_eq(p1.sn.node[i].ed, p2.sn.node[i].ed),
-                                   "C09: same observations afterwards");
+                                   "C09,C17: same observations afterwards");
     }
     V_WITNESS("h_rel end");
 }
